@@ -218,6 +218,16 @@ func (r *Run) Finish(verifDir string, known *KnownFile, explanation string) int 
 			samples = append(samples, o)
 		}
 	}
+	if r.Assume == nil {
+		r.Assume = []string{}
+	}
+	r.Assume = append(r.Assume, "the analysed tree type-checks and is what the build compiles (go/packages, no build tags beyond the default)", "the trusted base listed under coverage.trusted_base behaves as stated there")
+	if r.Trusted == nil {
+		r.Trusted = []string{}
+	}
+	if r.Notes == nil {
+		r.Notes = []string{}
+	}
 	ruleIDs := []string{}
 	for _, s := range r.Stats {
 		ruleIDs = append(ruleIDs, s.Rule)
